@@ -50,6 +50,7 @@ def run(ck):
     ck.rule("C10.R14", "`the collector` whose visitor sees the fields is the emitting thread's current one: get_default's path choice and the writers of the per-thread default (as C02.R2/R3)", floor=6)
     ck.rule("C10.R15", "a registered callsite stays reachable for every later re-evaluation: the lock-free list's push links to the head it observed, on every retry (as C04.R3)", floor=5)
     ck.rule("C10.R16", "the value set a macro built reaches the collector's visitor through Dispatch unchanged: new_span / record / event forward 1:1 (as C09.R4)", floor=3)
+    ck.rule("C10.R17", "every way of making a Dispatch registers it with the callsite registry, so its collector is asked about every callsite and the max level covers it (as C01.R6)", floor=3)
     ck.rule("C10.R9", "an enabled emission is not skipped by a stale `never`: the interest a first hit caches is the fold over the registered dispatchers, computed under the registry lock (as C04.R1)", floor=3)
     ck.rule("C10.R8", "`a collector has been installed` is sticky (as C18.R5): disabled callsites evaluate nothing also with the log feature", floor=3)
     ck.rule("C10.R7", "collector wrappers forward register_callsite/enabled and the records themselves (as C09.R1/R2)", floor=20)
@@ -95,6 +96,8 @@ def run(ck):
     C04.r1(ck, F, rid="C10.R9")
     C04.r4(ck, F, rid="C10.R13")
     C04.r3(ck, F, rid="C10.R15")
+    from rules import C01 as _C01b
+    _C01b.r6(ck, F, rid="C10.R17")
     from rules import C09 as _C09x
     _C09x.dispatch_forwarding(ck, F, rid="C10.R16", only={"new_span", "record", "enabled"})
     C02.r2(ck, F, rid="C10.R14")
